@@ -7,7 +7,7 @@ from lib import common as C
 from py2v import gen
 
 PROP = "C03"
-PROPS_FILES = ["Props/C03.v"]
+PROPS_FILES = ["Props/C03.v", "Props/C03_psd.v"]
 ASSUMPTIONS = [
   "real arithmetic (Coq R); float rounding outside the model - the searcher compares with 1e-9 relative tolerance",
   "scipy.spatial.distance pdist 'sqeuclidean' + squareform computes sum_k (u_k - v_k)^2 (translated as that contract)",
@@ -245,3 +245,8 @@ def search(ctx, hints, broken):
 
 def replay(ctx, payload):
   return oracle(payload["input"])
+
+# --- second build round: additions to the claimed level
+LEVEL_TEXT += ("; the multitask Gram matrix is PSD whenever the physical Gram matrix has a factor and the task Gram matrix is PSD (Schur product "
+               "theorem on the regenerated product formula); kernel objects that were re-assigned or overwritten in place before use, point sets "
+               "of >= 1000 points, scalar / length-1 noise in the searcher")
